@@ -99,6 +99,29 @@ CLAIMS['C16'] = dict(
          'all-histories clause by induction.',
     note='Trusted: CPython ast; struct.pack length; the device invariant size == len(backing array) set in __init__.')
 
+CLAIMS['C13'] = dict(
+    category='other', design_ref='DESIGN.md section 4 (C13), Appendix A.8',
+    technique='bit-vector abstract interpretation of MemA/MemU get/set per access size with translation, faults and the '
+              'hub abstracted as events; event lists and per-byte wiring compared with the architecture pseudocode',
+    text='For sizes 1/2/4/8 and every address, value, SCTLR.A/U, HSCTLR.A, CPSR.E, mode and arch version: which accesses '
+         'fault, which are aligned down, which go byte-wise; what is translated (address, privilege, direction, size, '
+         'wasaligned); that the bytes handed to / returned from the hub are the register value with exactly one reversal iff '
+         'CPSR.E and byte i goes to address+i mod 2^32; wrapper privileges; instruction fetch independent of CPSR.E with the '
+         'top-five-bits length rule. The store/load round trip over real memory is implied (with C16), not decided.',
+    note='Trusted: CPython ast; the reference coded in sa/props/c13.py from ARM ARM MemA_with_priv / MemU_with_priv; '
+         'translation / hub behaviour is judged by C14/C15/C16.')
+CLAIMS['C14'] = dict(
+    category='other', design_ref='DESIGN.md section 4 (C14), Appendix A.6',
+    technique='bit-vector abstract interpretation of TranslateAddressP with symbolic MPU regions compared with a reference '
+              'model by BDD equality (compositional: match predicate for every size with one region, combination logic with '
+              'three regions), AST loop-shape rule, exact tables for the PMSA arm of DataAbort',
+    text='Region match (base, size 2^2..2^32, subregion disable), priority of the highest-numbered enabled matching region, '
+         'background-region rule, AP permission table and the abort outcome are proved equal to the reference for every '
+         'address, privilege, direction and SCTLR setting; DataAbort never returns and sets DFAR/DFSR per abort type. LR_abt / '
+         'SPSR_abt are C11; no write-back before a faulting access is the C02-O/C03-O ordering rule.',
+    note='Trusted: CPython ast; reference coded in sa/props/c14.py; UNPREDICTABLE region programming excluded; more than '
+         'three regions by the loop-shape rule.')
+
 PENDING = 'checker not armed yet in this session (under construction); nothing is claimed for it until its rules run clean'
 
 checks = []
